@@ -514,3 +514,11 @@ func clampInt(v, lo, hi int) int {
 
 var _ = math.MaxInt16
 var _ = intstr.Int
+
+// ReplicasOf: spec.replicas (DaemonSet: desired number scheduled) of the workload (0 if it does not exist)
+func (e *partEnv) ReplicasOf(w *World) int {
+	if o := e.get(w); o != nil {
+		return e.a.Replicas(o)
+	}
+	return 0
+}
